@@ -15,7 +15,8 @@ RULE = ("Part A (exhaustive): every (module, name) target of the mapping table i
         "statements on one physical line, CRLF / lone CR line ends, form feed and other str.splitlines-only break characters "
         "inside strings and comments, tabs, missing trailing newline, empty module, non-ASCII identifiers; oracle: AST comparison "
         "of input and output (non-import statements unchanged and in order; each top-level absolute from-import replaced by a "
-        "group of from-imports with exactly the expected (module, name, local name) bindings). Distinct by (feature set, statement "
+        "group of from-imports with exactly the expected (module, name, local name) bindings). Part C: every 25th module also goes "
+        "through migrate_v1_to_v2 on a directory (file rewritten in place, hidden / __pycache__ / non-.py files untouched). Distinct by (feature set, statement "
         "kinds sequence); non-trivial = >=1 top-level from-import.")
 ASSUMPTIONS = ["comments and layout are not statements and are not compared",
                "the AST of the input (ast.parse) defines what the statements of the module are"]
@@ -169,6 +170,50 @@ def run_shard(ctx):
             ctx.violation(kind, {**info, **extra, "output": out[:1500]})
         else:
             ctx.count("rewrites_as_expected")
+        if case % 25 == 0:
+            end_to_end(ctx, src, m, info)
+
+
+def end_to_end(ctx, src, m, info):
+    """Part C: the same module through the file-level entry points (process_file / migrate_v1_to_v2 on a directory)."""
+    import os
+    import tempfile
+    from d42.migration.migrate_v1_to_v2 import migrate_v1_to_v2
+    import contextlib
+    import io
+    with tempfile.TemporaryDirectory(prefix="rv_c19_") as td:
+        os.makedirs(os.path.join(td, "pkg", ".hidden"))
+        os.makedirs(os.path.join(td, "pkg", "__pycache__"))
+        paths = {"mod": os.path.join(td, "pkg", "mod.py"), "hidden": os.path.join(td, "pkg", ".hidden", "h.py"),
+                 "cache": os.path.join(td, "pkg", "__pycache__", "c.py"), "txt": os.path.join(td, "pkg", "notes.txt")}
+        for pth in paths.values():
+            with open(pth, "w", encoding="utf-8", newline="") as f:
+                f.write(src)
+        buf = io.StringIO()
+        try:
+            with contextlib.redirect_stdout(buf):
+                migrate_v1_to_v2(td)
+        except Exception as e:  # noqa
+            ctx.violation(f"migrate_directory_raised:{type(e).__name__}", {**info, "exc": str(e)[:150]})
+            return
+        ctx.count("end_to_end_runs")
+        if "Error processing" in buf.getvalue():
+            ctx.violation("migrate_directory_reported_error", {**info, "stdout": buf.getvalue()[:300]})
+            return
+        for name in ("hidden", "cache", "txt"):
+            with open(paths[name], encoding="utf-8", newline="") as f:
+                if f.read() != src:
+                    ctx.violation("file_outside_scope_modified", {**info, "which": name})
+        with open(paths["mod"], encoding="utf-8", newline="") as f:
+            after = f.read()
+        if after == src:
+            return
+        try:
+            res = compare(src, after, m)
+        except SyntaxError as e:
+            res = ("output_does_not_parse", {"error": str(e)[:120]})
+        if res is not None:
+            ctx.violation("file_level:" + res[0], {**info, **res[1], "file_after": after[:800]})
 
 
 def required(m, tier):
